@@ -267,8 +267,13 @@ func (e *env) substitute(slot string, target *sdl.Instance, subType string) any 
 	if subType == "" {
 		subType = target.Type
 	}
-	h := &simrt.Handle{ID: "sub:" + slot, Alias: target.Alias, Qual: target.Qual, Kind: target.Kind, Ord: target.Order, C: e.ctx}
+	// all substitutes of one component are structurally identical (same handle content): what
+	// tells two versions apart is the object's identity, never its content
+	h := &simrt.Handle{ID: "sub-of:" + target.ID, Alias: target.Alias, Qual: target.Qual, Kind: target.Kind, Ord: target.Order, C: e.ctx}
 	s := e.newObject(subType, h)
+	if v := reflect.ValueOf(s); v.Kind() == reflect.Pointer {
+		e.ptrID[keyOf(v)] = "sub:" + slot
+	}
 	e.subs[slot] = s
 	return s
 }
